@@ -33,6 +33,7 @@ var c06Programs = []prog{
 	{"create-get", "I:Sa|Ca|Ga"},
 	{"overwrite-chain-reader-gc", "I:Sa.Sa.Sa|Ga.Ga|X|Sa"},
 	{"delete-keys-gc", "I:Sa.Sb|Da|K|X"},
+	{"two-writers-vs-rc-own-write", "I:Sa|Sa|Sa|b01.s0a.g0a.g0a.r0"},
 }
 
 var c07Programs = []prog{
@@ -170,7 +171,7 @@ var genC08 = &genPlan{al: &dbconc.AlphaC08,
 
 func c06(tier string) int {
 	return concCheck("C06", tier, 420*time.Second, 60*time.Minute, c06Programs, 2, 3, true, genC06,
-		"every schedule with at most N deviations (preemptions, early timers, non-default select arms) of 10 client programs (2-4 clients: autocommit, RU/RC transactions, a GC actor, shared keys) over inline.Open..Close on the real stack, and of the same programs with the writer preference of sync.RWMutex modelled at N-1; oracle: call/return history linearizable w.r.t. the sequential model (C01-C03), no deadlock, no panic, no leaked thread")
+		"every schedule with at most N deviations (preemptions, early timers, non-default select arms) of 11 client programs (2-4 clients: autocommit, RU/RC transactions, a GC actor, shared keys) over inline.Open..Close on the real stack, and of the same programs with the writer preference of sync.RWMutex modelled at N-1; oracle: call/return history linearizable w.r.t. the sequential model (C01-C03), no deadlock, no panic, no leaked thread")
 }
 
 func c07(tier string) int {
